@@ -477,7 +477,16 @@ def run(chk, repo):
     v = sub.value
     good = isinstance(v, ast.BinOp) and isinstance(v.op, ast.Div)
     if good:
-        for side, attr in ((v.left, "numpoly"), (v.right, "denpoly")):
+        arm_block = None
+        for st in docstring_free(call.body):
+            if isinstance(st, ast.If) and sub in st.body:
+                arm_block = st.body
+        sides = []
+        for side in (v.left, v.right):
+            if isinstance(side, ast.Name) and arm_block is not None:
+                side = _fold_value(call, side.id, arm_block) or side
+            sides.append(side)
+        for side, attr in ((sides[0], "numpoly"), (sides[1], "denpoly")):
             ok = isinstance(side, ast.Call) and unparse(side.func) == "sum" and len(side.args) == 1 \
                 and isinstance(side.args[0], ast.GeneratorExp)
             if ok:
@@ -556,6 +565,10 @@ def run(chk, repo):
     cc = repo.find(LF, "CascadeFilter.__call__")
     r = _ret(cc)
     good = False
+    if isinstance(r.value, ast.Name):
+        fv_ = _fold_value(cc, r.value.id)
+        if fv_ is not None:
+            r = ast.Return(value=fv_, lineno=r.lineno, col_offset=0)
     if isinstance(r.value, ast.Call) and canon_call(mod, r.value) == "functools.reduce" and len(r.value.args) == 3:
         lam, over, init = r.value.args
         if isinstance(lam, ast.Lambda) and len(lam.args.args) == 2:
@@ -730,6 +743,59 @@ def _fold_loop(mod, fn, acc):
     return ast.parse("reduce(%s, %s)" % (opname, unparse(src)), mode="eval").body
 
 
+def _fold_value(fn, acc, block=None):
+    """Other spelled-out folds, as the expression they compute (None when not one of these):
+       acc = 0 ; for T in S: acc = acc + E              ->  sum((E for T in S))
+       acc = I ; for T in S: acc = G(acc, T ...)        ->  reduce(lambda acc, T: G, S, I)
+       acc = F(S[0]) ; for x in S[1:]: acc = acc + F(x) ->  reduce(operator.add, (F(x) for x in S))
+    Plain aliases (c = self.callables) are resolved."""
+    stmts = block if block is not None else docstring_free(fn.body)
+    env, first, loop = {}, None, None
+    for st in stmts:
+        if isinstance(st, ast.Assign) and len(st.targets) == 1 and isinstance(st.targets[0], ast.Name):
+            if st.targets[0].id == acc and loop is None:
+                first = st
+            elif st.targets[0].id != acc:
+                env[st.targets[0].id] = st.value
+        elif isinstance(st, ast.For) and any(isinstance(x, ast.Assign) and unparse(x.targets[0]) == acc for x in st.body):
+            loop = st
+    if first is None or loop is None or len(loop.body) != 1 or not isinstance(loop.body[0], ast.Assign):
+        return None
+
+    def res(e):
+        class R(ast.NodeTransformer):
+            def visit_Name(self, n):
+                if isinstance(n.ctx, ast.Load) and n.id in env and isinstance(env[n.id], (ast.Attribute, ast.Name)):
+                    return ast.parse(unparse(env[n.id]), mode="eval").body
+                return n
+        return R().visit(ast.parse(unparse(e), mode="eval").body)
+    upd = loop.body[0].value
+    tgt = unparse(loop.target)
+    src = res(loop.iter)
+    init = first.value
+    if isinstance(init, ast.Constant) and init.value == 0 and type(init.value) is int and isinstance(upd, ast.BinOp) \
+            and isinstance(upd.op, ast.Add) and unparse(upd.left) == acc:
+        return ast.parse("sum((%s for %s in %s))" % (unparse(res(upd.right)), tgt, unparse(src)), mode="eval").body
+    # head / tail form
+    if isinstance(src, ast.Subscript) and unparse(src.slice) == "1:" and isinstance(upd, ast.BinOp) \
+            and type(upd.op) in _BINOPS and unparse(upd.left) == acc and isinstance(loop.target, ast.Name):
+        base = unparse(src.value)
+
+        class S0(ast.NodeTransformer):
+            def visit_Name(self, n):
+                if n.id == tgt and isinstance(n.ctx, ast.Load):
+                    return ast.parse("%s[0]" % base, mode="eval").body
+                return n
+        head = unparse(S0().visit(ast.parse(unparse(res(upd.right)), mode="eval").body))
+        if head == unparse(res(init)):
+            return ast.parse("reduce(operator.%s, (%s for %s in %s))" % (_BINOPS[type(upd.op)], unparse(res(upd.right)), tgt, base),
+                             mode="eval").body
+    if isinstance(loop.target, ast.Name):
+        return ast.parse("reduce(lambda %s, %s: %s, %s, %s)" % (acc, tgt, unparse(res(upd)), unparse(src), unparse(res(init))),
+                         mode="eval").body
+    return None
+
+
 def _reduce_shape(mod, fn):
     """Recognise ``reduce(OP, (filt.ATTR[(args)] for filt in OVER))[.OUTER]`` or
     ``reduce(OP, OVER).OUTER`` as the (last) returned expression."""
@@ -740,7 +806,7 @@ def _reduce_shape(mod, fn):
         outer, v = v.attr, v.value
     if isinstance(v, ast.Name):
         # explicit fold:  it = <source> ; acc = next(it) ; for x in it: acc = acc OP x ; return acc
-        loop_form = _fold_loop(mod, fn, v.id)
+        loop_form = _fold_loop(mod, fn, v.id) or _fold_value(fn, v.id)
         if loop_form is not None:
             v = loop_form
     if not (isinstance(v, ast.Call) and canon_call(mod, v) == "functools.reduce" and len(v.args) == 2):
